@@ -16,6 +16,16 @@ RULE = ('single-rooted random DAGs (n <= 12; 25 thorough) x non-empty sequences 
 THEOREM = 'Hpv.Props.C13.permutation / singleton / deterministic'
 
 
+def fkey(x):
+    """order-preserving injection of the non-NaN doubles into the integers"""
+    import struct
+    x = float(x)
+    if x == 0:
+        return 0
+    k = int.from_bytes(struct.pack('>d', abs(x)), 'big')
+    return k if x > 0 else -k
+
+
 class Tracer:
     """records which two current positions are merged at each step, by wrapping the static factory methods from outside"""
 
@@ -24,6 +34,35 @@ class Tracer:
         self.H = H
         self.ok = hasattr(H, 'Node') and hasattr(H.Node, 'make_tagged_node') and hasattr(H.Node, 'merge_nodes')
         self.trace, self.live = [], []
+        self.calls, self.rounds, self.sim_ok, self.eps = [], [], False, None
+
+    def watch(self, sorter):
+        """also record what the similarity measure answers, per round, by the POSITIONS of the two clusters (identity); the measure is a
+        private attribute: if it is not there the policy is simply not observed"""
+        m = getattr(sorter, '_sim_measure', None)
+        eps = getattr(sorter, '_epsilon', None)
+        if m is None or not callable(getattr(m, 'compute_similarity', None)) or not isinstance(eps, (int, float)) or not self.ok:
+            return
+        orig, tr = m.compute_similarity, self
+        self.eps = float(eps)
+
+        def cs(*a, **k):
+            out = orig(*a, **k)
+            try:
+                hits = [q for x in list(a) + list(k.values()) for q, y in enumerate(tr.live) if y is x]
+                v = float(out[0])
+                if len(hits) == 2 and hits[0] < hits[1]:
+                    if v != v:
+                        tr.sim_ok = False
+                    tr.calls.append([hits[0], [hits[1], fkey(v)]])
+            except Exception:  # noqa
+                tr.sim_ok = False
+            return out
+        try:
+            m.compute_similarity = cs
+            self.sim_ok = True
+        except Exception:  # noqa
+            self.sim_ok = False
 
     def __enter__(self):
         if not self.ok:
@@ -46,6 +85,8 @@ class Tracer:
                     raise IndexError
                 i, j = hits
                 tr.trace.append((i, j))
+                tr.rounds.append(tr.calls)
+                tr.calls = []
                 for q in sorted((i, j), reverse=True):
                     tr.live.pop(q)
             except Exception:  # noqa
@@ -59,6 +100,7 @@ class Tracer:
 
     def reset(self):
         self.trace, self.live = [], []
+        self.calls, self.rounds = [], []
 
     def __exit__(self, *a):
         if hasattr(self, 'orig_make'):
@@ -125,6 +167,8 @@ def run_group(ctx, edges, kind, ic, hier_kind, inputs, stream):
             except Exception as e:  # noqa
                 ctx.violation('sorter-constructor-raises', {'case': {'kind': 'argsort', 'edges': edges, 'sorter': kind}, 'impl': f'{type(e).__name__}: {e}'})
                 return
+            tr.watch(sorter)
+            policy_cases = []
             for ids in inputs:
                 n = len(ids)
                 nt = n >= 3 or len(set(ids)) < n
@@ -137,6 +181,7 @@ def run_group(ctx, edges, kind, ic, hier_kind, inputs, stream):
                     tr.reset()
                     res = tuple(int(i) for i in sorter.argsort(tids))
                     trace = list(tr.trace)
+                    rounds, sim_ok = [list(r) for r in tr.rounds], tr.sim_ok
                     res2 = tuple(int(i) for i in sorter.argsort(tids))
                     idf = [gl.identified(TermId.from_curie(x)) for x in ids]
                     res3 = tuple(int(i) for i in sorter.argsort(tuple(idf)))
@@ -176,8 +221,20 @@ def run_group(ctx, edges, kind, ic, hier_kind, inputs, stream):
                     return
                 if tr.ok and len(trace) == n - 1:
                     cases.append((ids, trace, res))
+                    if sim_ok and tr.sim_ok and len(rounds) == n - 1 and all(len(r) == (n - k) * (n - k - 1) // 2 for k, r in enumerate(rounds)):
+                        policy_cases.append((ids, trace, res, rounds))
+                    else:
+                        ctx.count('policy.unobservable')
                 else:
                     ctx.count('trace.unobservable')
+    if policy_cases:
+        # the clustering POLICY (Hpv.Sorting.clusterLoop, theorem policy_permutation) fed with the similarities the measure was seen to
+        # answer: information - an implementation that clusters differently is still covered by the theorems over every merge trace
+        reps = run_driver([{'op': 'argsort.policy', 'ids': ids, 'eps': fkey(tr.eps), 'rounds': rounds} for ids, _, _, rounds in policy_cases])
+        for (ids, trace, res, rounds), rep in zip(policy_cases, reps):
+            same = isinstance(rep, dict) and rep.get('result') is not None and tuple(rep['result']) == res
+            pops = [(i, j if j < i else j + 1) for i, j in (rep.get('pops') or [])] if isinstance(rep, dict) else None
+            ctx.count('policy.' + ('agrees' if same and pops == [tuple(p) for p in trace] else 'result-agrees-pops-differ' if same else 'differs'))
     if cases:
         reps = run_driver([{'op': 'argsort.replay', 'ids': ids, 'trace': [list(p) for p in trace]} for ids, trace, _ in cases])
         for (ids, trace, res), rep in zip(cases, reps):
